@@ -132,6 +132,8 @@ class Module:
         self.is_pkg = is_pkg
         self.sha256 = hashlib.sha256(src.encode()).hexdigest()
         self.tree = ast.parse(src, filename=path)
+        from .normalize import normalize_tree
+        normalize_tree(self.tree)
         self.events: list[Binding] = []
         self.classes: dict[str, ClassInfo] = {}
         self.funcs: dict[str, FuncInfo] = {}
@@ -321,6 +323,8 @@ class SourceModel:
                     self.modules[name] = Module(self, name, path, relpath, src, is_pkg)
                 except SyntaxError as e:
                     raise AnalysisError(f"cannot parse {relpath}: {e}")
+        from .normalize import positionalize_calls
+        self.positionalized = positionalize_calls(self)
         from .inline import absorb_helpers
         self.absorbed = absorb_helpers(self)
 
